@@ -12,6 +12,9 @@ import functools
 import json
 import os
 import itertools
+import math
+import warnings
+from collections import defaultdict
 import operator
 from fractions import Fraction
 
@@ -45,6 +48,9 @@ class RandSrc(object):
     def below(self, n, site):
         return self.rng.randrange(n)
 
+    def eph_index(self):
+        return self.rng.randrange(len(EPH_VALUES))
+
     def unit(self):
         # dyadic values, including the extremes 0.0 and 1 - 2^-53, and hits of common thresholds
         r = self.rng.random()
@@ -53,8 +59,8 @@ class RandSrc(object):
         if r < 0.1:
             return 1.0 - 2.0 ** -53
         if r < 0.2:
-            v = self.rng.choice(THRESHOLDS)          # random.random() is always < 1.0
-            return v if v < 1.0 else 1.0 - 2.0 ** -53
+            v = float(self.rng.choice(THRESHOLDS))   # random.random() is always in [0, 1)
+            return v if 0.0 <= v < 1.0 else (1.0 - 2.0 ** -53 if v >= 1.0 else 0.0)
         return self.rng.randrange(1 << 20) / float(1 << 20)
 
 
@@ -79,6 +85,9 @@ class ScriptSrc(object):
 
     def below(self, n, site):
         return self._next(n)
+
+    def eph_index(self):
+        return [3, 7, 0][self._next(3)]       # 0, 2**60, -3
 
     def unit(self):
         return self.unit_options[self._next(len(self.unit_options))]
@@ -122,12 +131,27 @@ class Proxy(object):
         return x
 
     def eph(self, key):
-        v = self.src.below(7, "eph") - 3
+        v = EPH_VALUES[self.src.eph_index()]
         self.log.append(("eph", key, v))
         return v
 
 
+EPH_VALUES = [-3, -2, -1, 0, 1, 2, 3, 2 ** 60, -2 ** 63, 2 ** 53 + 1]     # incl. ints beyond 2**53
 CUR = [None]       # proxy in force (ephemeral generators read it)
+
+
+class LogDD(defaultdict):
+    """pset.primitives / pset.terminals with the defaultdict side effect made visible: a read of a missing key
+    is logged (it creates the key with an empty list)"""
+
+    def __init__(self, log, tag, items):
+        defaultdict.__init__(self, list)
+        self.update(items)
+        self.log, self.tag = log, tag
+
+    def __missing__(self, k):
+        self.log.append((self.tag, k))
+        return defaultdict.__missing__(self, k)
 
 
 class EphFn(object):
@@ -155,15 +179,18 @@ class PS(object):
         self.universe = []          # node objects (Primitive / Terminal instances, ephemeral classes)
         self.ephkey = {}
         self.addlog = []            # (node, isinstance(node, Primitive)) in the order of the _add calls
+        self.seqlog = []            # ('add', node, is_primitive) | ('tp', type) | ('tt', type): adds and defaultdict reads
+        self.snapshots = []
         orig = gp.PrimitiveSetTyped._add
 
         def recording_add(pset_self, prim):
             self.addlog.append((prim, isinstance(prim, gp.Primitive)))
+            self.seqlog.append(("add", prim, isinstance(prim, gp.Primitive)))
             return orig(pset_self, prim)
         gp.PrimitiveSetTyped._add = recording_add
         try:
             if builder is not None:
-                builder(self, gp)
+                builder(self, gp, rng)
             elif typed:
                 self._build_typed(rng, gappy, small)
             else:
@@ -263,6 +290,13 @@ class PS(object):
 
         def add(x):
             if id(x) not in self.nid:
+                # nodes that compare equal (Primitive/Terminal.__eq__ on the slots: duplicates added twice) are ONE
+                # node for the code (`item not in new_list`), hence one id
+                if not self.is_eph_class(x):
+                    for j, y in enumerate(self.universe):
+                        if not self.is_eph_class(y) and type(y) is type(x) and y == x:
+                            self.nid[id(x)] = j
+                            return
                 self.nid[id(x)] = len(self.universe)
                 self.universe.append(x)
                 ty(x.ret)
@@ -326,7 +360,7 @@ class PS(object):
             added = [x for x, isp in self.addlog if isp == kind]
             for t, l in d.items():
                 want = [x for x in added if issubclass(x.ret, t)]
-                if sorted(map(id, l)) != sorted(map(id, want)):
+                if set(self.nid[id(x)] for x in l) != set(self.nid[id(x)] for x in want):
                     out.append("%s[%s] holds %r, expected %r" % ("primitives" if kind else "terminals", t.__name__,
                                                                    [x.name for x in l], [x.name for x in want]))
         return out
@@ -341,7 +375,7 @@ class PS(object):
                            self.is_eph_class(x)) for x in self.universe]}
 
 
-def build_arith(self, gp):
+def build_arith(self, gp, rng=None):
     """loosely typed: add/2, neg/1, two arguments -- chains neg(neg(x)) and bushy add(x, y) have equal size and
     different height"""
     ps = gp.PrimitiveSet("MAIN", 2)
@@ -351,7 +385,7 @@ def build_arith(self, gp):
     self.types = [object]
 
 
-def build_chain(self, gp):
+def build_chain(self, gp, rng=None):
     """strongly typed over the subclass chain TA > TB > TD with "twin" primitives whose parameters are
     subclass-related (co-/contravariant candidates for node replacement)"""
     ps = gp.PrimitiveSetTyped("MAIN", [], TA)
@@ -397,7 +431,7 @@ def coutcome(o, f):
 
 
 def cgexpr(g):
-    return "(mkgexpr %s %s %s)" % ({"full": "KFull", "grow": "KGrow", "half": "KHalf"}[g[0]], cz(g[1]), cz(g[2]))
+    return "(mkgexpr %s %s %s)" % ({"full": "KFull", "grow": "KGrow", "half": "KHalf", "ramped": "KHalf"}[g[0]], cz(g[1]), cz(g[2]))
 
 
 def cop(op):
@@ -406,7 +440,12 @@ def cop(op):
         return "OCx"
     if k == "cxlb":
         f = Fraction(op[1])
-        return "(OCxLB %d %d%%positive)" % (f.numerator, f.denominator)
+        return "(OCxLB %s %d%%positive)" % (cz(f.numerator), f.denominator)
+    if k == "cxsame":
+        return "OCxSame"
+    if k == "cxlbsame":
+        f = Fraction(op[1])
+        return "(OCxLBSame %s %d%%positive)" % (cz(f.numerator), f.denominator)
     if k == "uniform":
         return "(OMutUniform %s)" % cgexpr(op[1])
     if k == "noderepl":
@@ -534,7 +573,7 @@ def enum_trees(ps, type_, maxnodes):
 
 # --------------------------------------------------------------------------- main
 def main(run):
-    from deap import gp
+    from deap import gp, base
     rng = run.rng
     run.rule = ("primitive sets: untyped (arities 1..3, terminals, ephemerals, 0..2 arguments) and strongly typed with 2..4 "
                 "Python types containing a subclass pair (pool TA>TB>TD, TC, int>bool, float), some deliberately 'gappy' "
@@ -567,7 +606,9 @@ def main(run):
     def emit(ps, term, case, nontrivial=True):
         if ps.name not in psdesc:
             psdesc[ps.name] = ps.describe()
-        g = groups.setdefault(ps.k, (ps, [], []))
+        if ps.k not in groups:
+            groups[ps.k] = (ps, [], [], ps.coq_defs())
+        g = groups[ps.k]
         g[1].append(term)
         g[2].append(case)
         run.note_case(case, nontrivial, sample=case if len(g[1]) % 211 == 1 else None)
@@ -628,7 +669,12 @@ def main(run):
             wt_case(ps, nodes, t_, force=True)
 
     # ---------------------------------------------------------------- generators
-    GENS = {"full": gp.genFull, "grow": gp.genGrow, "half": gp.genHalfAndHalf}
+    def gen_ramped(*a, **k):
+        # deprecated alias, still exported
+        with warnings.catch_warnings():
+            warnings.simplefilter("ignore")
+            return gp.genRamped(*a, **k)
+    GENS = {"full": gp.genFull, "grow": gp.genGrow, "half": gp.genHalfAndHalf, "ramped": gen_ramped}
 
     def gen_case(ps, kind, mn, mx, type_, src):
         out, log = with_proxy(src, lambda: GENS[kind](ps.pset, mn, mx, type_))
@@ -653,7 +699,7 @@ def main(run):
                 h, leaves = depths(expr)
                 if not (mn <= h <= mx):
                     viol("generated height %d outside [%d, %d]" % (h, mn, mx), case)
-                actual_full = kind == "full" or (kind == "half" and log[0][2] == 1)
+                actual_full = kind == "full" or (kind in ("half", "ramped") and log[0][2] == 1)
                 if actual_full and any(d != h for d in leaves):
                     viol("full generator: leaves at different depths %r" % (sorted(set(leaves)),), case)
                 if not actual_full and any(d < mn for d in leaves):
@@ -676,7 +722,15 @@ def main(run):
             wf = full[2] == len(nodes)
         except ValueError:
             wf = False
-        idxs = range(len(nodes)) if all_indices else sorted({0, len(nodes) - 1, rng.randrange(len(nodes))})
+        n_ = len(nodes)
+        if n_ == 0:
+            idxs = [0, -1]
+        elif all_indices:
+            idxs = list(range(n_)) + ([i - n_ for i in range(n_)] if n_ <= 12 else [-1, -n_]) + [n_, -n_ - 1]
+        else:
+            idxs = sorted({0, n_ - 1, rng.randrange(n_), -1, -n_, rng.randrange(n_) - n_, n_, -n_ - 1})
+        if n_ and tree.root is not tree[0]:
+            viol("root is not element 0", {"kind": "root", "pset": ps.name, "tree": names(ps, nodes)})
         for i in idxs:
             try:
                 s = tree.searchSubtree(i)
@@ -684,11 +738,12 @@ def main(run):
             except IndexError:
                 out = ("raise", "IndexError")
             case = {"kind": "search", "pset": ps.name, "tree": names(ps, nodes), "index": i, "observed": out[1]}
-            if wf:
-                exp = parse(nodes, i)
-                if out != ("ok", (i, exp[2])):
-                    viol("searchSubtree(%d) is not the span of the subtree rooted there (expected %r)" % (i, (i, exp[2])), case)
-            emit(ps, "CSearch U%d %s %s %s" % (ps.k, clit(ps.lit(nodes)), cnat(i),
+            if wf and -n_ <= i < n_:
+                j_ = i % n_
+                exp = parse(nodes, j_)
+                if out != ("ok", (j_, exp[2])):
+                    viol("searchSubtree(%d) is not the span of the subtree rooted there (expected %r)" % (i, (j_, exp[2])), case)
+            emit(ps, "CSearch U%d %s %s %s" % (ps.k, clit(ps.lit(nodes)), cz(i),
                                               coutcome(out, lambda p: "(%s, %s)" % (cnat(p[0]), cnat(p[1])))), case, len(nodes) > 1)
         try:
             out = ("ok", tree.height)
@@ -734,6 +789,25 @@ def main(run):
             case = {"kind": "setslice", "pset": ps.name, "tree": names(ps, t), "slice": [b, e], "value": names(ps, v), "observed": out[1]}
             emit(ps, "CSetSlice U%d %s %s %s %s %s" % (ps.k, clit(ps.lit(t)), cnat(b), cnat(e), clit(ps.lit(v)), coutcome(out, clit)), case)
 
+    def setitem_cases(ps, t):
+        # PrimitiveTree.__setitem__ with an integer key: same / different arity, first, last, negative, out of range
+        n = len(t)
+        cands = [x for x in ps.universe if not ps.is_eph_class(x)]
+        for i in sorted({0, n - 1, -1, -n, n, -n - 1, rng.randrange(n), rng.randrange(n) - n}):
+            for v in rng.sample(cands, min(2, len(cands))):
+                tt = gp.PrimitiveTree(list(t))
+                try:
+                    tt[i] = v
+                    out = ("ok", ps.lit(tt))
+                except IndexError:
+                    out = ("raise", "IndexError")
+                except ValueError:
+                    out = ("raise", "ValueError")
+                case = {"kind": "setitem", "pset": ps.name, "tree": names(ps, t), "index": i, "value": v.name, "observed": out[1]}
+                if out[0] == "ok" and (v.arity != t[i].arity or sum(1 for a, b in zip(tt, t) if a is not b) > 1):
+                    viol("node assignment accepted a node of another arity / changed other positions", case)
+                emit(ps, "CSetItem U%d %s %s (%d,0) %s" % (ps.k, clit(ps.lit(t)), cz(i), ps.nid[id(v)], coutcome(out, clit)), case)
+
     # ---------------------------------------------------------------- operators
     def op_callable(ps, op):
         k = op[0]
@@ -754,14 +828,40 @@ def main(run):
             return gp.mutShrink, {}
         raise ValueError(k)
 
-    def op_case(ps, op, inputs, src, limit=None, in_type=None, heights_too=False):
-        """inputs: list of node lists (not modified). limit = (key name, max_value) wraps with staticLimit."""
-        fn, kw = op_callable(ps, op)
-        if limit is not None:
-            keyf = operator.attrgetter("height") if limit[0] == "height" else len
-            fn = gp.staticLimit(keyf, limit[1])(fn)
-        args = [tree_of(t) for t in inputs]
-        if op[0] == "cxlb":
+    wrapped_cache = {}     # one decorated function object per (pset, operator, limit): reused across calls
+
+    def op_case(ps, op, inputs, src, limit=None, in_type=None, heights_too=False, objs=None, via_toolbox=False):
+        """inputs: list of node lists (not modified), or objs: live PrimitiveTree objects that are modified in place.
+        limit = (key name, max_value) wraps with staticLimit.  Returns (outcome, log, returned objects)."""
+        if objs is not None:
+            args = list(objs)
+            inputs = [list(o) for o in objs]
+        else:
+            args = [tree_of(t) for t in inputs]
+        same = len(args) == 2 and args[0] is args[1]
+        sig = "C11.cx_same_object" if same else None
+        mop = op
+        if same:
+            # ONE object passed twice: the model of the aliased slice swap (known finding C11.cx_same_object)
+            mop = ("cxsame",) if op[0] == "cx" else ("cxlbsame", op[1])
+            limit = None
+        ck = (ps.k, op, limit, via_toolbox)
+        if ck not in wrapped_cache:
+            fn, kw = op_callable(ps, op)
+            if via_toolbox:
+                tb = base.Toolbox()
+                tb.register("variation", fn, **kw)
+                if limit is not None:
+                    keyf = operator.attrgetter("height") if limit[0] == "height" else len
+                    tb.decorate("variation", gp.staticLimit(key=keyf, max_value=limit[1]))
+                wrapped_cache[ck] = (tb.variation, {})
+            else:
+                if limit is not None:
+                    keyf = operator.attrgetter("height") if limit[0] == "height" else len
+                    fn = gp.staticLimit(keyf, limit[1])(fn)
+                wrapped_cache[ck] = (fn, kw)
+        fn, kw = wrapped_cache[ck]
+        if op[0] in ("cxlb", "cxlbsame"):
             THRESHOLDS[0] = op[1]
         else:
             THRESHOLDS[0] = float(ps.ratio)
@@ -772,6 +872,9 @@ def main(run):
                 a.height, len(a)
             except IndexError:
                 pass
+        # shallow copies sharing the node objects (ephemeral instances included): must not change
+        shadows = [gp.PrimitiveTree(list(a)) for a in args]
+        shadow_lits = [ps.lit(x) for x in shadows]
         held = []
 
         def call():
@@ -780,9 +883,14 @@ def main(run):
             return [list(t) for t in r]
         out, log = with_proxy(src, call)
         exp_t = ps.pset.ret if in_type is None else in_type
-        case = {"kind": "op", "pset": ps.name, "op": list(op), "limit": limit,
+        case = {"kind": "op", "pset": ps.name, "op": list(op), "limit": limit, "same_object_twice": same,
                 "inputs": [names(ps, t) for t in inputs], "draws": [e[:3] if e[0] == "choice" else e for e in log]}
         in_ok = all(not structure_problems(gp, t, exp_t) for t in inputs)
+        if rng.random() < 0.2 or heights_too:
+            for x, before in zip(shadows, shadow_lits):
+                if len(before) <= 80:
+                    emit(ps, "CUnch U%d %s %s" % (ps.k, clit(before), clit(ps.lit(x))),
+                         {"kind": "copy-unchanged", "pset": ps.name, "op": list(op), "before": before, "after": ps.lit(x)})
         lits = None
         if out[0] == "raise":
             case["observed"] = out[1]
@@ -796,10 +904,10 @@ def main(run):
             if op[0] == "eph" and op[1] not in ("one", "all") and out[1] == "ValueError":
                 legit = True
             if in_ok and not legit:
-                viol("operator raised %s on well-formed inputs" % out[1], case)
+                viol("operator raised %s on well-formed inputs" % out[1], case, signature=sig)
             if out[1] not in ("IndexError", "ValueError"):
                 run.note_case(case)
-                return out, log
+                return out, log, held
         else:
             res = out[1]
             case["observed"] = [names(ps, t) for t in res]
@@ -817,20 +925,15 @@ def main(run):
                 for j, t in enumerate(res):
                     probs = structure_problems(gp, t, exp_t)
                     if probs:
-                        viol("operator output %d is not a complete well-typed prefix expression: %s" % (j, probs[0]), case)
+                        viol("operator output %d is not a complete well-typed prefix expression: %s" % (j, probs[0]), case,
+                             signature=sig)
                     elif post_h[j] != ("ok", depths(t)[0]):
                         viol("height read on returned tree %d (after a read before the operation) is %r, deepest node at depth %d"
                              % (j, post_h[j][1], depths(t)[0]), case)
                     elif len(held[j]) != len(t):
                         viol("len of returned tree %d inconsistent" % j, case)
-            if heights_too or rng.random() < 0.25:
-                for t, h in zip(res, post_h):
-                    if len(t) <= 80:
-                        emit(ps, "CHeight U%d %s %s" % (ps.k, clit(ps.lit(t)), coutcome(h, cz)),
-                             {"kind": "height-after-op", "pset": ps.name, "tree": names(ps, t), "observed": h[1],
-                              "op": list(op), "inputs": case["inputs"], "draws": case["draws"]}, len(t) > 1)
                 if limit is None:
-                    if op[0] in ("cx", "cxlb") and sum(map(len, res)) != sum(map(len, inputs)):
+                    if op[0] in ("cx", "cxlb") and not same and sum(map(len, res)) != sum(map(len, inputs)):
                         viol("crossover does not conserve the total node count", case)
                     if op[0] == "shrink" and len(res[0]) > len(inputs[0]):
                         viol("shrink mutation grew the tree", case)
@@ -842,27 +945,34 @@ def main(run):
                     if all(meas(t) <= limit[1] for t in inputs):
                         for j, t in enumerate(res):
                             if not structure_problems(gp, t, exp_t) and meas(t) > limit[1]:
-                                viol("staticLimit(%s, %d) returned a tree measuring %d" % (limit[0], limit[1], meas(t)), case)
+                                viol("staticLimit(%s, %r) returned a tree measuring %d" % (limit[0], limit[1], meas(t)), case)
+            if heights_too or rng.random() < 0.25:
+                for t, h in zip(res, post_h):
+                    if len(t) <= 80:
+                        emit(ps, "CHeight U%d %s %s" % (ps.k, clit(ps.lit(t)), coutcome(h, cz)),
+                             {"kind": "height-after-op", "pset": ps.name, "tree": names(ps, t), "observed": h[1],
+                              "op": list(op), "inputs": case["inputs"], "draws": case["draws"]}, len(t) > 1)
         o = out if lits is None else ("ok", lits)
         ocoq = coutcome(o, lambda ls: clist([clit(l) for l in ls]))
-        ins = clist([clit(ps.lit(t)) for t in inputs])
+        ins = clist([clit(ps.lit(t)) for t in (inputs[:1] if same else inputs)])
         if limit is None:
-            term = "COp U%d P%d %s %s %s %s" % (ps.k, ps.k, cop(op), ins, cdraws(ps, log), ocoq)
+            term = "COp U%d P%d %s %s %s %s" % (ps.k, ps.k, cop(mop), ins, cdraws(ps, log), ocoq)
         else:
-            term = "CLim U%d P%d %s %s %s %s %s %s" % (ps.k, ps.k, "KHeight" if limit[0] == "height" else "KLen", cz(limit[1]),
-                                                    cop(op), ins, cdraws(ps, log), ocoq)
+            # key(ind) > max_value on an integer measure: max_value enters the model as its floor
+            term = "CLim U%d P%d %s %s %s %s %s %s" % (ps.k, ps.k, "KHeight" if limit[0] == "height" else "KLen",
+                                                    cz(math.floor(limit[1])), cop(op), ins, cdraws(ps, log), ocoq)
         emit(ps, term, case, any(len(t) > 1 for t in inputs))
-        return out, log
+        return out, log, held
 
     def rand_op(ps):
         r = rng.random()
         if r < 0.2:
             return ("cx",)
         if r < 0.35:
-            return ("cxlb", rng.choice([0.0, 0.1, 0.5, 0.9, 1.0]))
+            return ("cxlb", rng.choice([0.0, 0.1, 0.5, 0.9, 1.0, 0, 1, 2.0 ** -40, 1.0 - 2.0 ** -53, 1.5, -0.25]))
         if r < 0.5:
             mn = rng.randint(0, 2)
-            return ("uniform", (rng.choice(["full", "grow", "half"]), mn, rng.randint(mn, 3)))
+            return ("uniform", (rng.choice(["full", "grow", "half", "ramped"]), mn, rng.randint(mn, 3)))
         if r < 0.66:
             return ("noderepl",)
         if r < 0.74:
@@ -874,14 +984,18 @@ def main(run):
     def arity2(op):
         return 2 if op[0] in ("cx", "cxlb") else 1
 
-    def enumerate_draws(ps, op, inputs, budget, limit=None, heights_too=False):
+    def enumerate_draws(ps, op, inputs, budget, limit=None, heights_too=False, same=False):
         """all draw outcomes of one operator application (DFS over the scripted choices)"""
         stack = [[]]
         n = 0
         while stack and n < budget:
             script = stack.pop()
             src = ScriptSrc(script, unit_options=UNIT_OPTIONS)
-            op_case(ps, op, inputs, src, limit=limit, heights_too=heights_too)
+            if same:
+                o_ = tree_of(inputs[0])
+                op_case(ps, op, None, src, objs=[o_, o_])
+            else:
+                op_case(ps, op, inputs, src, limit=limit, heights_too=heights_too)
             n += 1
             counts = src.counts
             for pos in range(len(script), len(counts)):
@@ -908,7 +1022,13 @@ def main(run):
         ins = [by_name(ps, t) for t in c["inputs"]]
         lim = tuple(c["limit"]) if c.get("limit") else None
         opc = tuple(tuple(x) if isinstance(x, list) else x for x in c["op"])
-        if c.get("enumerate"):
+        if c.get("same_object"):
+            if c.get("enumerate"):
+                enumerate_draws(ps, opc, ins, 500, same=True)
+            else:
+                o_ = tree_of(ins[0])
+                op_case(ps, opc, None, ScriptSrc(c["script"]), objs=[o_, o_])
+        elif c.get("enumerate"):
             enumerate_draws(ps, opc, ins, 500, limit=lim, heights_too=True)
         else:
             op_case(ps, opc, ins, ScriptSrc(c["script"]), limit=lim, heights_too=True)
@@ -1021,6 +1141,7 @@ def main(run):
                 ext = gp.PrimitiveTree(list(t) + [t[-1]])
                 search_height_cases(ps, ext, all_indices=False)
                 setslice_cases(ps, t, rng.choice(small))
+                setitem_cases(ps, t)
         nops = run.scale(60, 200)
         for _ in range(nops):
             op = rand_op(ps)
@@ -1030,8 +1151,8 @@ def main(run):
             if r < 0.35:
                 keyn = rng.choice(["height", "len"])
                 ms = [(depths(t)[0] if keyn == "height" else len(t)) for t in ins]
-                limit = (keyn, max(ms) + rng.choice([0, 0, 0, 1, 2, -1]))
-            op_case(ps, op, ins, RandSrc(rng), limit=limit)
+                limit = (keyn, max(ms) + rng.choice([0, 0, 0, 1, 2, -1, 0.5, -0.5, 0.0, 2 ** 60, 1e9, -max(ms), -max(ms) - 1]))
+            op_case(ps, op, ins, RandSrc(rng), limit=limit, via_toolbox=rng.random() < 0.2)
         # single-node inputs
         singles = [t for t in pool if len(t) == 1][:2]
         for t in singles:
@@ -1039,6 +1160,46 @@ def main(run):
                 ins = [list(t)] * arity2(op)
                 op_case(ps, op, ins, RandSrc(rng))
         op_case(ps, ("eph", "some"), [list(pool[0])], RandSrc(rng))
+
+        # ---- histories: the SAME tree objects go through a sequence of operators (in place), with reads of
+        # height / len / searchSubtree in between; returned objects (possibly staticLimit's kept copies, possibly one
+        # object in both positions) replace the arguments and are used again; every step is judged on its own
+        for _ in range(run.scale(3, 12)):
+            objs = [tree_of(rng.choice(small)) for _ in range(3)]
+            for step in range(rng.randint(3, 7)):
+                op = rand_op(ps)
+                k_ = arity2(op)
+                pos = rng.sample(range(len(objs)), k_)
+                if k_ == 2 and rng.random() < 0.12:
+                    pos = [pos[0], pos[0]]                       # the same object passed twice
+                cur = [objs[i] for i in pos]
+                lim = None
+                if not (k_ == 2 and cur[0] is cur[1]) and rng.random() < 0.4:
+                    keyn = rng.choice(["height", "len"])
+                    try:
+                        ms = [(depths(list(t))[0] if keyn == "height" else len(t)) for t in cur]
+                        lim = (keyn, max(ms) + rng.choice([0, 0, 1]))
+                    except ValueError:
+                        lim = None
+                out, _, held = op_case(ps, op, None, RandSrc(rng), limit=lim, objs=cur, heights_too=(step % 2 == 0),
+                                       via_toolbox=rng.random() < 0.15)
+                if out[0] == "ok" and len(held) == len(pos):
+                    for i, h in zip(pos, held):
+                        objs[i] = h
+                for i, o in enumerate(objs):
+                    if structure_problems(gp, list(o), ps.pset.ret):
+                        objs[i] = tree_of(rng.choice(small))     # an ill-formed leftover (same-object crossover) is retired
+                o = rng.choice(objs)
+                if len(o) <= 60:
+                    search_height_cases(ps, o, all_indices=False)
+        # the same object passed twice to the crossovers (known finding C11.cx_same_object when it goes wrong)
+        for _ in range(run.scale(6, 30)):
+            o_ = tree_of(rng.choice(small))
+            op_case(ps, rng.choice([("cx",), ("cxlb", 0.5), ("cxlb", 0.0)]), None, RandSrc(rng), objs=[o_, o_])
+        # the empty tree: tie of the guard branches only
+        for op in [("cx",), ("cxlb", 0.5), ("uniform", ("grow", 0, 1)), ("noderepl",), ("eph", "one"), ("insert",), ("shrink",)]:
+            op_case(ps, op, [[]] * arity2(op), RandSrc(rng), limit=rng.choice([None, ("height", 0), ("len", 0)]))
+        search_height_cases(ps, gp.PrimitiveTree([]), all_indices=True)
 
     # ---------------------------------------------------------------- exhaustive small scope
     maxn = 5
@@ -1099,8 +1260,8 @@ def main(run):
     run.notes.append("python phase %.1fs, %d terms" % (_time.time() - run.t0, sum(len(g[1]) for g in groups.values())))
     # ---------------------------------------------------------------- correspondence, one group per pset
     pre, terms, cases = "", [], []
-    for k, (ps, ts, cs) in groups.items():
-        pre += ps.coq_defs()
+    for k, (ps, ts, cs, defs) in groups.items():
+        pre += defs
         terms += ts
         cases += cs
     run.correspond("all", "C11", terms, cases, preamble=pre, shard=300)
@@ -1110,5 +1271,5 @@ def main(run):
             c = dict(c)
             nm = c["pset"]
             c["pset"] = psdesc.get(nm, nm)
-            c["pset_coq"] = next((g[0].coq_defs() for g in groups.values() if g[0].name == nm), None)
+            c["pset_coq"] = next((g[3] for g in groups.values() if g[0].name == nm), None)
             d["case"] = c
